@@ -56,7 +56,8 @@ def _replay_state(st, W, E):
     # magnitudes: the same stream scaled by a power of two (exact in binary floating point) gives the scaled results,
     # through every accessor - tiny values are values, not noise
     for sc in (2.0 ** -70, 2.0 ** -33, 2.0 ** 45):
-        w, e = W(), E(float(alpha))
+        # (alpha passed by position; as np.float64, and as the int 1 where it is one)
+        w, e = W(), E(1 if alpha == 1 else np.float64(float(alpha)) if sc < 1e-15 else float(alpha))
         for v in hist:
             w.update(float(v) * sc)
             e.update(float(v) * sc)
